@@ -171,3 +171,53 @@ pub fn strings_for(p: Prof) -> BoxedStrategy<String> {
 pub fn is_non_ascii_zs(c: char) -> bool {
     c != ' ' && db().is_zs16(c)
 }
+
+/// small-scope exhaustive enumeration: every string of length 0..=maxlen over `alpha`, partitioned over the threads;
+/// `f` returns false to stop this thread (after reporting a violation)
+pub fn enum_strings(run: &Run, section: &str, alpha: &[char], maxlen: u32, f: &(dyn Fn(&str, &mut Local) -> bool + Sync)) {
+    let a = alpha.len() as u64;
+    let mut total = 0u64;
+    for len in 0..=maxlen {
+        total += a.pow(len);
+    }
+    run.par(section, true, |tid, n, l| {
+        let mut idx = tid as u64;
+        let mut s = String::new();
+        while idx < total {
+            if idx % 2048 < n as u64 && run.stopped() {
+                return;
+            }
+            let mut rem = idx;
+            let mut len = 0u32;
+            loop {
+                let c = a.pow(len);
+                if rem < c {
+                    break;
+                }
+                rem -= c;
+                len += 1;
+            }
+            s.clear();
+            for _ in 0..len {
+                s.push(alpha[(rem % a) as usize]);
+                rem /= a;
+            }
+            l.cases += 1;
+            if !f(&s, l) {
+                return;
+            }
+            idx += n as u64;
+        }
+    });
+}
+
+/// alphabet for username pipelines: every step has something to do and the steps interact
+pub const ALPHA_USER: [char; 32] = [
+    'a', 'A', '1', '\u{ff21}', '\u{ff41}', '\u{ff11}', '\u{ff76}', '\u{ff9e}', '\u{30ab}', '\u{3099}', '\u{e9}', '\u{c9}', 'e', '\u{301}', '\u{30a}', '\u{212b}', '\u{130}', '\u{1c5}',
+    '\u{3a3}', '\u{3c2}', '\u{5d0}', '\u{5b8}', '\u{627}', '\u{661}', '\u{6f1}', '\u{200d}', '\u{94d}', '\u{b7}', 'l', '-', '\u{13a0}', '\u{10400}',
+];
+/// alphabet for the freeform pipelines (passwords, nicknames)
+pub const ALPHA_FREE: [char; 28] = [
+    'a', 'A', ' ', '\u{a0}', '\u{3000}', '\u{2003}', '\u{a8}', '\u{2017}', '\u{1fbf}', '\u{fdfa}', '\u{e9}', 'e', '\u{301}', '\u{308}', '\u{212b}', '\u{fb01}', '\u{2163}', '\u{ff21}',
+    '\u{3131}', '\u{ffa1}', '\u{fe71}', '\u{1d11e}', '\u{130}', '\u{3a3}', '\u{200d}', '\u{94d}', '\u{0}', '\u{ff65}',
+];
